@@ -43,7 +43,7 @@ def gen_cases(rng, count, tier='quick'):
         levels = rng.choice([2, 5]) if (cls == 'GAM' and dist == 'binomial') else 1
         cases.append(dict(
             seed=rng.randrange(10 ** 9), cls=cls, dist=dist, link=link, levels=levels,
-            expectile=rng.choice([0.1, 0.5, 0.75, 0.95]) if cls == 'ExpectileGAM' else None,
+            expectile=(rng.choice([0.1, 0.5, 0.75, 0.95]), [0.1, 0.95, 0.5, 0.75][(i // len(PAIRS)) % 4])[1] if cls == 'ExpectileGAM' else None,
             scale=rng.choice([None, None, 0.3, 2.5]) if cls in ('LinearGAM', 'GammaGAM', 'InvGaussGAM', 'ExpectileGAM') else None,
             n_mode=rng.choice(['m-1', 'm', 'm+1', 'small', 'mid', 'mid', 'large'] if tier == 'quick' else ['1', '2', 'm-1', 'm', 'm+1', 'small', 'mid', 'large', 'xlarge']),
             weights_mode=rng.choice(['none', 'none', 'pos', 'int', 'zeros']),
@@ -51,9 +51,17 @@ def gen_cases(rng, count, tier='quick'):
             constraints=(rng.random() < 0.25),
             max_terms=rng.choice([1, 2, 3]),
             # units of the response (continuous families only): the optimum is equivariant, the code must not carry an absolute scale
-            y_scale=rng.choice([1.0, 1.0, 1.0, 1e-4, 1e-8, 1e4]) if dist in ('normal', 'gamma') else 1.0,
+            # (deterministic cycle per pair, so that every run has each pair in small and large units; the identity-link
+            # models whose PIRLS needs several iterations — expectiles, gamma / identity — are mostly in small units, where
+            # coefficients are far below 1 and any absolute tolerance in the loop shows)
+            y_scale=(rng.choice([1.0, 1.0, 1.0, 1e-4, 1e-8, 1e4]),
+                     ([1e-4, 1e-8, 1.0, 1e-8, 1e4, 1e-4] if (cls == 'ExpectileGAM' or (dist, link) == ('gamma', 'identity')) else [1.0, 1e-4, 1.0, 1e-8, 1e4, 1.0])[(i // len(PAIRS)) % 6])[1]
+            if dist in ('normal', 'gamma') else (rng.choice([1.0]), 1.0)[1],
             # what happened to the model object before the fit that is judged (used by the streams that look at histories)
             history=rng.choice(['none', 'none', 'none', 'refit-lam', 'refit-lam', 'refit-data']),
+            # used only by streams that opt in (build(..., opt_in=True)): features of huge magnitude; exposure of a PoissonGAM
+            feature_units=rng.choice(['plain', 'plain', 'plain', 'huge']),
+            exposure_mode=rng.choice(['none', 'pos', 'pos']) if cls == 'PoissonGAM' else 'none',
         ))
     return cases
 
@@ -88,14 +96,18 @@ def _response(rs, dist, link, levels, eta):
     raise ValueError(dist)
 
 
-def build(case, pygam=None):
-    """-> dict(gam (unfitted), X, y, weights, desc)  (raises ValueError when the generator rejects the program)"""
+def build(case, pygam=None, opt_in=False):
+    """-> dict(gam (unfitted), X, y, weights, exposure, desc)  (raises ValueError when the generator rejects the program);
+    opt_in: also generate the ingredients only some streams can judge (huge feature magnitudes, PoissonGAM exposure)"""
     if pygam is None:
         pygam = common.import_pygam()
     rng = random.Random(case['seed'])
     rs = np.random.default_rng(case['seed'])
+    huge = 0.5 if (opt_in and case.get('feature_units') == 'huge') else 0.0
+    # huge raw features enter one at a time (a linear or spline term on a timestamp): no tensor products of them — columns
+    # of magnitude 1e18 are beyond what any solve without equilibration can be held to
     pr = termgen.gen_program(rng, pygam, n_rows=260, n_query=12, allow_constraints=case['constraints'],
-                             allow_periodic_penalty=True, max_terms=case['max_terms'], tensor_prob=0.25)
+                             allow_periodic_penalty=True, max_terms=case['max_terms'], tensor_prob=(0.0 if huge else 0.25), huge_prob=huge)
     tl = pr.terms
     m = int(tl.n_coefs)
     if m > 110:
@@ -141,6 +153,11 @@ def build(case, pygam=None):
         w = rs.choice([0.0, 1.0, 2.0], size=n, p=[0.2, 0.5, 0.3])
         if w.sum() == 0:
             w[0] = 1.0
+    exposure = None
+    if opt_in and case.get('exposure_mode', 'none') != 'none' and case['cls'] == 'PoissonGAM':
+        # counts observed over different exposures: y ~ Poisson(rate * e); the model is fitted with fit(X, y, exposure=e, weights=w)
+        exposure = rs.choice([0.5, 1.0, 2.0, 3.0, 7.5], size=n)
+        y = rs.poisson(np.exp(0.6 * np.clip(eta, -2.5, 2.5) + 0.5) * exposure).astype(float)
     cls = getattr(pygam, case['cls'])
     kw = dict(tol=1e-10, max_iter=150)
     fit_intercept = any(t.isintercept for t in tl)
@@ -158,7 +175,7 @@ def build(case, pygam=None):
     if case.get('scale') is not None and case['cls'] in ('LinearGAM', 'GammaGAM', 'InvGaussGAM', 'ExpectileGAM'):
         kw['scale'] = case['scale']
     gam = cls(tl, **kw)
-    return dict(gam=gam, X=X, y=y, weights=w, Xq=pr.Xq, m=m, n=n, desc=dict(pr.desc, n=n, m=m))
+    return dict(gam=gam, X=X, y=y, weights=w, exposure=exposure, Xq=pr.Xq, m=m, n=n, desc=dict(pr.desc, n=n, m=m))
 
 
 def fit_quiet(gam, X, y, weights=None, **kw):
